@@ -158,6 +158,76 @@ pub fn run(rep: &mut Rep) {
             enumerate::explore(if cell.borrow().quick() { 6 } else { 8 }, 2, shard, nshards, |ch| body(&mut cell.borrow_mut(), ch));
         }
     }
+    // identifier reuse: the packet identifier of a cancelled operation comes round again (65535 allocations later; here:
+    // counter set back through hook H2) - the operation that now carries it completes on its own acknowledgement
+    rep.note("identifier reuse after cancellation: publish QoS 1 / QoS 2 (cancelled before PUBREC, or between the phases) / subscribe / unsubscribe cancelled while awaiting its acknowledgement, the late acknowledgement(s) delivered or not, then the identifier counter is set back (hook H2) so that a new operation of the same or another kind gets the same packet identifier: it must go out, and complete with the acknowledgement sent for it");
+    let kinds = [Kind::Pub1, Kind::Pub2, Kind::Sub, Kind::Unsub];
+    let mut ridx = 70_000_000u64;
+    for k1 in kinds {
+        for k2 in kinds {
+            for late in 0..3u8 {
+                for pid in [1u16, 300, 65535] {
+                    let id = format!("reuse:{}:{}:{late}:{pid}", k1.name(), k2.name());
+                    ridx += 1;
+                    if !rep.take(ridx, &id) {
+                        continue;
+                    }
+                    let mut w = World::boot(WorldCfg { seed: rep.seed, seed_ids: Some((pid, 40)), ..Default::default() });
+                    let x = w.start(0, k1);
+                    w.settle_check();
+                    if late == 2 && k1 == Kind::Pub2 {
+                        // cancelled between the phases
+                        w.deliver_ack(x, 1, 0, 0);
+                        w.settle_check();
+                    }
+                    w.drop_op(x);
+                    w.settle_check();
+                    if late >= 1 {
+                        // the late acknowledgement(s) of the cancelled operation
+                        for _ in 0..2 {
+                            if let Some(&(i, st)) = w.ackable().iter().find(|(i, _)| *i == x) {
+                                w.deliver_ack(i, st, 0, 0);
+                                w.settle_check();
+                            }
+                        }
+                    }
+                    let unfinished = w.ackable().iter().any(|(i, _)| *i == x);
+                    if !unfinished {
+                        // the identifier is free again: hand it out once more
+                        w.sim.handles[0].as_ref().unwrap().verif_seed_ids(pid, 90);
+                        let y = w.start(1, k2);
+                        w.settle_check();
+                        for _ in 0..2 {
+                            if let Some(&(i, st)) = w.ackable().iter().find(|(i, _)| *i == y) {
+                                w.deliver_ack(i, st, if k2.is_qos_pub() { 0 } else { 0 }, 1);
+                                w.settle_check();
+                            }
+                        }
+                        if w.sim.ops[y].out.is_none() && !w.blind {
+                            let k = k2.name();
+                            w.viol(&["C15"], format!("C15/reused-identifier-never-completes/{k}"), format!("op{y} ({k}) carries packet identifier {pid}, used before by the cancelled op{x}; its acknowledgement was delivered but the future is still pending"));
+                        }
+                    }
+                    end_probe(rep, &mut w);
+                    finish(&mut w);
+                    for v in w.viols.iter_mut() {
+                        if !v.props.contains(&"C15") && !v.props.contains(&"*") {
+                            v.sig = format!("C15/after-cancel/{}", v.sig);
+                            v.props = &["C15"];
+                        }
+                    }
+                    rep.add("evaluations", 1);
+                    rep.add("identifier_reuse_cases", 1);
+                    rep.add("cancellations", 1);
+                    rep.distinct(&("reuse", k1, k2, late, pid));
+                    if harvest(rep, &mut w, &id) == 0 {
+                        rep.sample(|| format!("{id}: the operation reusing identifier {pid} completed with its own acknowledgement"));
+                    }
+                    add_counters(rep, &w);
+                }
+            }
+        }
+    }
     // random walks
     let mut wb = b.clone();
     wb.max_ops = 8;
